@@ -500,7 +500,7 @@ def seed(rc):
         rc.fail(fi, fn, "fixed edges must be added to the start graph", construct="insert fixed edges")
     # acyclicity check with raise after insertion
     chk = [s for s in sites(fn, lambda n: isinstance(n, ast.Raise)) if any(
-        isinstance(t, ast.UnaryOp) and isinstance(t.op, ast.Not) and isinstance(t.operand, ast.Call) and call_name(t.operand) == "is_directed_acyclic_graph" and pol
+        isinstance(t, ast.Call) and call_name(t) == "is_directed_acyclic_graph" and not pol
         for t, pol in s.conds)]
     rc.ob(f"cyclic start rejected: {bool(chk)}")
     if not chk:
